@@ -173,6 +173,29 @@ def rule_group(ctx, R):
         after = sb in dblocks or not reaches_without(cfg, cfg.succ[sb], M.head, cut_blocks=dblocks)
         before = sb in dblocks or not reaches_without(cfg, cfg.succ[M.head] if M.head not in dblocks else [], sb, cut_blocks=dblocks)
         R.check(bool(dblocks) and (after or before), "parse:start:resets:%s" % nm.replace(" ", "_"), "every accepted command start assigns the pending command's %s before the next character is read (no value of the previous command or of ignored text survives)" % nm, b.blocks[sb]["stmts"][M.start[1]]["span"]["at"])
+    # a finished command is stored exactly when one is pending: "nothing pending" is the value the kind variable has
+    # before the first start (not a kind); every store site lies behind the test against it and cannot be bypassed
+    outs = [d for d in vars_.defs.get(M.kind[1], []) if d[1] not in M.loop]
+    sent = None
+    if len(outs) == 1 and outs[0][0] == "assign" and outs[0][3]["r"]["k"] == "use" and "int" in outs[0][3]["r"]["x"]:
+        sent = int(outs[0][3]["r"]["x"]["int"])
+    if R.anchor(sent is not None, "pending_sentinel", "the constant the kind variable holds before the first command starts"):
+        R.check(sent > 8, "parse:pending:sentinel", "the 'nothing pending' marker (%d) is not a command kind (0..5 finished, 6..8 unfinished)" % sent, outs[0][3]["span"]["at"])
+        rk = Roles(b, fb, param_roles={1: "CODE"}, overrides={M.kind[1]: "KIND"})
+        evk = Events(b, fb, roles=rk)
+        pend = []
+        for gb, blk in enumerate(b.blocks):
+            tt = blk["term"]
+            if tt["k"] == "switch" and not blk["cleanup"]:
+                for sx in cfg.succ[gb]:
+                    lab = evk.generic_edge(gb, tt, sx) or ""
+                    if lab in ("EQ[K%d,KIND]=0" % sent, "EQ[KIND,K%d]=0" % sent, "NE[K%d,KIND]=1" % sent, "NE[KIND,K%d]=1" % sent):
+                        pend.append((gb, sx))
+        for k_, (nb, nt) in enumerate(M.news):
+            doms = [(gb, sx) for gb, sx in pend if not reaches_without(cfg, [0], nb, cut_edges=[(gb, sx)])]
+            stop = [M.head] + list(cfg.returns) if nb in M.loop else list(cfg.returns)
+            ok = len(doms) >= 1 and all(not reaches_without(cfg, [sx], [x for x in stop if x != nb], cut_blocks=[nb]) for gb, sx in doms[-1:])
+            R.check(ok, "parse:flush:iff:%d" % k_, "a finished command is stored exactly when a command is pending (the store lies behind the test kind != %d and on every path from it)" % sent, nt["span"]["at"])
     # the skip test for start syllables without a later end syllable precedes every such assignment:
     # find the `continue` edge of the comparison max_pos[..] <= i
     found = False
@@ -237,6 +260,23 @@ def rule_defs(ctx, R):
                             guards.append((gb, sx))
             ok2 = bool(guards) and not reaches_without(cfg, [M.head], db, cut_edges=guards)
             R.check(ok2, "parse:dot:state0", "dots are counted only before the area part began (parser state 0)", s["span"]["at"])
+    # ... and they are counted: the increment exists and cannot be bypassed once state 0 was established on a dot character
+    adds_ = []
+    for (db, di) in vars_.def_sites(M.dot):
+        if di != "t":
+            o = org.of_rvalue(b.blocks[db]["stmts"][di]["r"], db, di)
+            if o[0] == "bin" and o[1] == "Add":
+                adds_.append(db)
+    g0 = []
+    for gb in M.loop:
+        tt = b.blocks[gb]["term"]
+        if tt["k"] == "switch":
+            for sx in cfg.succ[gb]:
+                lab = ev.generic_edge(gb, tt, sx)
+                if lab and lab.startswith("EQ[K0,") and lab.endswith("=1") and ("LOOPVAR" in lab or lab.startswith("EQ[K0,PHI(")) and any(reaches_without(cfg, [sx], a, cut_blocks=[M.head]) for a in adds_):
+                    g0.append(sx)
+    outside_ = [x for x in range(len(b.blocks)) if x not in M.loop]
+    R.check(len(adds_) == 1 and bool(g0) and not reaches_without(cfg, g0, [M.head], cut_blocks=adds_ + outside_), "parse:dot:counted", "every dot character met before the area part is counted (the increment exists and lies on every path from the state-0 test back to the loop head): %d increment(s), %d test edge(s)" % (len(adds_), len(g0)), b.blocks[adds_[0]]["stmts"][0]["span"]["at"] if adds_ and b.blocks[adds_[0]]["stmts"] else b.span)
     # syllable counting: inside the syllable part every Hangul syllable adds exactly one
     for (db, di) in vars_.def_sites(M.hangul):
         if di == "t" or db not in M.loop or (db, di) == M.start:
